@@ -36,7 +36,95 @@ def competitor_space():
     return list(itertools.product(range(len(MASKS)), ACTIONS, LOOPS, PRIOS))
 
 
+# ----------------------------------------------------------------------------- where a flow's loop comes from
+# declaration forms of an interaction loop; the *effective* loop of a flow is the one its OWN definition declares
+# (for an @override flow: the override's own decorators, nothing is taken over from the flow it replaces) or, without a
+# declaration, the loop of the flow that started it
+DECLS = {None: "", "L2": '@loop("L2")\n', "L2k": '@loop(id="L2")\n', "L3": '@loop("L3")\n', "NEW": '@loop("NEW")\n'}
+OVER_DECLS = [None, "L2", "L3", "NEW"]
+ARRANGEMENTS = [("after", "override-first"), ("before", "override-first"), ("after", "loop-first"), ("before", "loop-first")]
+
+
+def loop_forms():
+    forms = [("plain", d) for d in DECLS]
+    forms += [("over", a, b, 0) for a in OVER_DECLS for b in OVER_DECLS]
+    forms += [("parent", "L2"), ("parent", "NEW")]
+    return forms
+
+
+LOOP_FORMS_REDUCED = [("plain", None), ("plain", "L2"), ("over", "L2", None, 0), ("over", None, "L2", 0), ("plain", "NEW")]
+
+
+def effective_loop(form, i, main_decl):
+    d = form[2] if form[0] == "over" else form[1]
+    if d is None:
+        d = main_decl
+    if d is None:
+        return "L1"
+    if d == "NEW":
+        return f"NEW{i}"
+    return "L2" if d == "L2k" else d
+
+
+def _loopsrc_program(comps, main_decl, forms):
+    out = []
+    starts = []
+    for i, ((mi, act, _loop, prio), form) in enumerate(zip(comps, forms)):
+        args = ", ".join(f'{p}="{WANT[p]}"' for p in MASKS[mi])
+        pr = f"  priority {prio}\n" if prio is not None else ""
+        body = f"flow f{i}\n{pr}  match E({args})\n  start Act{act}Action()\n  match Done()\n"
+        starts.append(f"f{i}")
+        if form[0] == "plain":
+            out.append(DECLS[form[1]] + body)
+        elif form[0] == "parent":
+            out.append(body)
+            out.append(DECLS[form[1]] + f"flow s{i}\n  start f{i}\n  match Never()\n")
+            starts[-1] = f"s{i}"
+        else:
+            _k, d_orig, d_over, arr = form
+            where_, deco = ARRANGEMENTS[arr]
+            # the replaced definition would react to the same event with an action of its own
+            orig = DECLS[d_orig] + f"flow f{i}\n  match E({args})\n  start ActOrig{i}Action()\n  match Done()\n"
+            over = ("@override\n" + DECLS[d_over] if deco == "override-first" else DECLS[d_over] + "@override\n") + body
+            out += [orig, over] if where_ == "after" else [over, orig]
+    main = DECLS[main_decl] + "flow main\n" + "".join(f"  start {f}\n" for f in starts) + "  match Never()\n"
+    return "\n".join(out) + "\n" + main
+
+
+# ----------------------------------------------------------------------------- competitors with a history
+# what a competitor went through (one event earlier) before it waits for the contested event
+PREFIXES = {
+    None: ("", ""),
+    "match": ("  match P()\n", ""),
+    "match-or": ("  match P() or Q()\n", ""),
+    "await": ("  await g{i}\n", "flow g{i}\n  match P()\n"),
+    "await-or": ("  await g{i} or h{i}\n", "flow g{i}\n  match P()\n\nflow h{i}\n  match Q()\n"),
+    "await-and": ("  await g{i} and h{i}\n", "flow g{i}\n  match P()\n\nflow h{i}\n  match P()\n"),
+    "await-or-and": ("  await (g{i} and h{i}) or k{i}\n", "flow g{i}\n  match P()\n\nflow h{i}\n  match P()\n\nflow k{i}\n  match Q()\n"),
+    "when-or": ("  when P()\n    $x = 1\n  or when Q()\n    $x = 2\n", ""),
+}
+PASSES_WITH_Q = {None, "match-or", "await-or", "await-or-and", "when-or"}
+
+
+def _prefix_program(comps, forms):
+    out = []
+    for i, ((mi, act, loop, prio), form) in enumerate(zip(comps, forms)):
+        args = ", ".join(f'{p}="{WANT[p]}"' for p in MASKS[mi])
+        dec = f'@loop("{loop}")\n' if loop != "L1" else ""
+        pr = f"  priority {prio}\n" if prio is not None else ""
+        stmt, helpers = PREFIXES[form]
+        if helpers:
+            out.append(helpers.replace("{i}", str(i)))
+        out.append(f"{dec}flow f{i}\n{pr}{stmt.replace('{i}', str(i))}  match E({args})\n  start Act{act}Action()\n  match Done()\n")
+    main = "flow main\n" + "".join(f"  start f{i}\n" for i in range(len(comps))) + "  match Never()\n"
+    return "\n".join(out) + "\n" + main
+
+
 def program(comps, indirect):
+    if isinstance(indirect, tuple) and indirect[0] == "loopsrc":
+        return _loopsrc_program(comps, indirect[1], indirect[2])
+    if isinstance(indirect, tuple) and indirect[0] == "prefix":
+        return _prefix_program(comps, indirect[1])
     out = []
     for i, (mi, act, loop, prio) in enumerate(comps):
         args = ", ".join(f'{p}="{WANT[p]}"' for p in MASKS[mi])
@@ -133,6 +221,18 @@ def where(state, fs):
     return type(el).__name__
 
 
+def _at_match_E(state, fs):
+    """exactly one live head, and it waits at `match E(...)`"""
+    if fs.status != FlowStatus.STARTED:
+        return False
+    cfg = state.flow_configs[fs.flow_id]
+    heads = [h for h in fs.heads.values() if h.status != FlowHeadStatus.INACTIVE]
+    if len(heads) != 1:
+        return False
+    el = cfg.elements[heads[0].position]
+    return sm.is_match_op_element(el) and el.spec.name == "E"
+
+
 def explore(task):
     comps, indirect, depth = task
     src = program(comps, indirect)
@@ -147,21 +247,48 @@ def explore(task):
             return all(ev[k] == NESTED_WANT[k] for k in NESTED[comp[0]][2])
         return fits(comp, ev)
 
+    prefix = indirect[1] if isinstance(indirect, tuple) and indirect[0] == "prefix" else None
+    loops = sorted({c[2] for c in comps}) if isinstance(indirect, tuple) else LOOPS
+
     def alphabet(state, node):
         if node.depth == 0:
             return [("start_main",)]
+        if prefix and node.depth == 1:
+            return [("ext", "P", {}), ("ext", "Q", {})]
         return events
 
     class Mon:
         def __call__(self, ex, prev, aev, conc, taken, nxt, pops):
             if aev[0] == "start_main":
-                nxt.aux["waiting"] = tuple(range(n))
+                nxt.aux["waiting"] = tuple(i for i in range(n) if not prefix or prefix[i] is None)
                 for i in range(n):
                     fs = flow_of(nxt.state, i)
-                    if fs is None or where(nxt.state, fs) != "E":
+                    if fs is None or (where(nxt.state, fs) != "E" if i in nxt.aux["waiting"] else fs.status != FlowStatus.STARTED):
                         raise Violation("setup", f"flow f{i} not waiting after start", {})
                 return
+            if prefix and aev[1] in ("P", "Q"):
+                # the earlier event: the competitors get past their first statement (no action, nobody fails) and
+                # now wait for the contested event
+                passed = tuple(i for i in range(n) if aev[1] == "P" or prefix[i] in PASSES_WITH_Q)
+                for i in range(n):
+                    fs = flow_of(nxt.state, i)
+                    if fs is None or (not _at_match_E(nxt.state, fs) if i in passed else fs.status != FlowStatus.STARTED):
+                        raise Violation("setup", f"flow f{i} ({prefix[i]}) not waiting for E after {aev[1]}", {})
+                if nxt.state.outgoing_events:
+                    raise Violation("setup", f"events after {aev[1]}: {[e['type'] for e in nxt.state.outgoing_events]}", {})
+                nxt.aux["waiting"] = passed
+                nxt.aux["notpassed"] = tuple(i for i in range(n) if i not in passed)
+                if len(passed) >= 2 and any(prefix[i] is not None for i in passed):
+                    ex.stats.bump("competitors_with_a_history_waiting")
+                return
             waiting = prev.aux["waiting"]
+            if prefix:
+                # a competitor that did not get past its first statement does not react to E at all
+                for i in prev.aux["notpassed"]:
+                    fs = flow_of(nxt.state, i)
+                    if fs is None or fs.status != FlowStatus.STARTED:
+                        raise Violation("non-fitting-flow-touched", f"flow f{i} still waits for its first event but is now "
+                                        f"{fs.status.name if fs else 'gone'}", {"event": aev[2]})
             ev = (aev[2]["p1"], aev[2]["p2"])
             if nested:
                 ev = {"x": aev[2]["p1"]["x"], "y": aev[2]["p1"]["y"], "p2": aev[2]["p2"]}
@@ -174,6 +301,9 @@ def explore(task):
             detail = {"event": ev, "fit": fit, "starts": starts, "taken": list(taken)}
             if len(fit) >= 2:
                 ex.stats.bump("competitions")
+                if isinstance(indirect, tuple):
+                    same = max(sum(1 for i in fit if comps[i][2] == l) for l in loops) >= 2
+                    ex.stats.bump(f"{indirect[0]}_steps_with_2_fitting_flows_in_{'one_loop' if same else 'different_loops'}")
             # untouched: everybody who was waiting and does not fit keeps waiting
             for i in waiting:
                 if i not in fit:
@@ -184,7 +314,7 @@ def explore(task):
                                         f"flow f{i} did not fit {ev} but is now '{w}'", detail)
                     still.append(i)
             picked_actions = []
-            for loop in LOOPS:
+            for loop in loops:
                 grp = [i for i in fit if comps[i][2] == loop]
                 if not grp:
                     continue
@@ -195,7 +325,8 @@ def explore(task):
                 losers = [i for i in grp if ws[i] == "stopped"]
                 detail.update({f"{loop}_where": ws, f"{loop}_argmax": argmax})
                 if len(winners) + len(losers) != len(grp):
-                    raise Violation("competitor-in-unexpected-state", f"loop {loop}: {ws}", detail)
+                    raise Violation("competitor-in-unexpected-state",
+                                    f"loop {loop}: every fitting flow either proceeds (parked after its action) or ends up failed (STOPPED): {ws}", detail)
                 if not winners:
                     raise Violation("no-winner", f"loop {loop}: fitting flows {grp} but none proceeded ({ws})", detail)
                 acts = {comps[i][1] for i in winners}
@@ -235,6 +366,12 @@ def explore(task):
 
     ex = Explorer(src, alphabet, monitors=[Mon()], depth=depth)
     ex.run()
+    if isinstance(indirect, tuple):
+        ex.stats.bump(f"{indirect[0]}_programs")
+        # the later families name themselves in the signature (same oracle, different class of input)
+        fam = {"loopsrc": "loop-source", "prefix": "history"}[indirect[0]]
+        for v in ex.violations:
+            v["signature"] = f"{fam}:{v['signature']}"
     return v2x.result_of(ex, {"competitors": [list(c) for c in comps], "indirect": indirect})
 
 
@@ -286,6 +423,45 @@ def tasks(tier):
         red4 = [c for c in space if c[3] is None and c[2] == "L1" and c[0] in (0, 1, 3)]
         for q in itertools.product(red4, repeat=4):
             out.append((q, False, 2))
+    return out
+
+
+def tasks2(tier):
+    """families added later (hosted by C05 only): where a flow's interaction loop comes from; competitors with a history"""
+    out = []
+    quick = tier == "quick"
+    # --- loop sources: competitor 0 over every form, competitor 1 over the reduced forms (thorough: every form), main with /
+    # without a loop of its own; the competitor tuple carries the EFFECTIVE loop, the oracle is the one of the main table
+    forms = loop_forms()
+    mask_pairs = [(3, 0), (0, 3)] if quick else [(3, 0), (0, 3), (3, 3)]
+    act_pairs = [("A", "B")] if quick else [("A", "B"), ("A", "A")]
+    for f0 in forms:
+        for f1 in (LOOP_FORMS_REDUCED if quick else forms):
+            for main_decl in (None, "L2"):
+                for (m0, m1), (a0, a1) in itertools.product(mask_pairs, act_pairs):
+                    fs_ = (f0, f1)
+                    comps = tuple((m, a, effective_loop(f, i, main_decl), None) for i, (m, a, f) in enumerate(zip((m0, m1), (a0, a1), fs_)))
+                    out.append((comps, ("loopsrc", main_decl, fs_), 2))
+    # every arrangement of an override in the source (before / after the flow it replaces, decorator order)
+    for f0 in forms:
+        if f0[0] != "over":
+            continue
+        for arr in range(1, len(ARRANGEMENTS)):
+            for f1 in ([("plain", None)] if quick else LOOP_FORMS_REDUCED):
+                fs_ = (f0[:3] + (arr,), f1)
+                comps = tuple((m, a, effective_loop(f, i, None), None) for i, (m, a, f) in enumerate(zip((3, 0), ("A", "B"), fs_)))
+                out.append((comps, ("loopsrc", None, fs_), 2))
+    # --- competitors with a history: every pair of first statements, one event (P or Q) earlier than the contested one
+    pf = list(PREFIXES)
+    for p0, p1 in itertools.product(pf, repeat=2):
+        if p0 is None and p1 is None:
+            continue
+        for (m0, m1), (a0, a1) in itertools.product(mask_pairs, [("A", "B"), ("A", "A")]):
+            out.append((((m0, a0, "L1", None), (m1, a1, "L1", None)), ("prefix", (p0, p1)), 3 if quick else 4))
+        out.append((((3, "A", "L1", None), (0, "B", "L2", None)), ("prefix", (p0, p1)), 3))
+        if not quick:
+            for pr0, pr1 in ((0.5, None), (None, 0.5)):
+                out.append((((3, "A", "L1", pr0), (2, "B", "L1", pr1)), ("prefix", (p0, p1)), 3))
     return out
 
 
@@ -538,8 +714,19 @@ def run(rep, tier):
         "competitor table: mention mask over {p1,p2} x action {A,B} x loop {main loop, L2} x priority {none,0.5}; "
         "events E(p1 in {a,x}, p2 in {b,y}, p3); n=2 complete (+indirect via awaited sub-flow), quick: n=3 reduced, thorough: n=3 complete, n=4 reduced",
         "all random.choice outcomes enumerated; depth: start + 2 trigger events",
+        "loop sources (n=2, depth start + 1 event): competitor 0 over {no decorator, @loop(\"L2\"), @loop(id=\"L2\"), @loop(\"L3\"), @loop(\"NEW\"), "
+        "@override flow x replaced flow with each of {none, L2, L3, NEW} on either (4 source arrangements), started by a parent "
+        "with @loop L2 / NEW}, competitor 1 over 5 of these forms [thorough: all], main with / without @loop(\"L2\"); effective loop = "
+        "the flow's own declaration (an override's own decorators only), else the starter's loop",
+        "competitors with a history (n=2): first statement of each over {none, match P, match P or Q, await g, await g or h, await g and h, "
+        "await (g and h) or k, when P / or when Q}, earlier event P or Q, then the contested events; quick depth start + 2 [thorough + 3]",
     ]
     run_e1(rep, me, tier, budget_s=None if tier == "quick" else 1500)
+
+    class _Later:   # the later families (not hosted by C09): same explorer, same oracle
+        explore = staticmethod(explore)
+        tasks = staticmethod(tasks2)
+    run_e1(rep, _Later, tier, budget_s=None if tier == "quick" else 600)
     from vf import par
     for r in par.pmap(instance_event_part, [0]):
         rep.set("instance_event_cases", r["instance_event_cases"])
